@@ -144,6 +144,32 @@ pub struct Meta {
     pub hdlr_last: bool,
     /// unknown siblings of meta inside udta
     pub udta_extra: Vec<(Cc, Vec<u8>)>,
+    /// 0 = compact headers everywhere; otherwise each box of the udta subtree independently gets
+    /// the 64-bit size header with probability 1/3 (deterministic in the seed)
+    #[serde(default)]
+    pub large_seed: u64,
+}
+
+/// decides, per box of the udta subtree, whether it uses the 64-bit size header
+pub struct LargePick {
+    x: u64,
+}
+
+impl LargePick {
+    pub fn new(seed: u64) -> Self {
+        LargePick { x: seed }
+    }
+    pub fn next(&mut self) -> bool {
+        if self.x == 0 {
+            return false;
+        }
+        self.x = crate::engine::splitmix(self.x) | 1;
+        (self.x >> 17) % 3 == 0
+    }
+    fn mark(&mut self, mut n: Node) -> Node {
+        n.large = self.next();
+        n
+    }
 }
 
 #[derive(Clone, Debug, Serialize, Deserialize, PartialEq, Eq)]
@@ -393,22 +419,27 @@ fn trak_node(m: &Movie, ti: usize, pl: &Placement) -> Node {
 }
 
 pub fn meta_node(me: &Meta) -> Node {
-    let hdlr = Node::leaf("hdlr", enc_hdlr(0, 0, me.handler, ""));
+    let mut lp = LargePick::new(me.large_seed);
+    meta_node_with(me, &mut lp)
+}
+
+pub fn meta_node_with(me: &Meta, lp: &mut LargePick) -> Node {
+    let hdlr = lp.mark(Node::leaf("hdlr", enc_hdlr(0, 0, me.handler, "")));
     let mut kids: Vec<Node> = Vec::new();
     let ilst = me.items.as_ref().map(|items| {
         let mut ch = Vec::new();
         for it in items {
             let mut parts: Vec<Node> = Vec::new();
             for (t, p) in &it.pre {
-                parts.push(Node::leaf_cc(*t, p.clone()));
+                parts.push(lp.mark(Node::leaf_cc(*t, p.clone())));
             }
-            parts.push(Node::leaf("data", enc_data(it.type_code, 0, &it.payload)));
+            parts.push(lp.mark(Node::leaf("data", enc_data(it.type_code, 0, &it.payload))));
             for (t, p) in &it.post {
-                parts.push(Node::leaf_cc(*t, p.clone()));
+                parts.push(lp.mark(Node::leaf_cc(*t, p.clone())));
             }
-            ch.push(Node { typ: it.typ, large: false, parts: parts.into_iter().map(Part::Child).collect(), spare: vec![], tag: 0 });
+            ch.push(Node { typ: it.typ, large: lp.next(), parts: parts.into_iter().map(Part::Child).collect(), spare: vec![], tag: 0 });
         }
-        Node::container("ilst", ch)
+        lp.mark(Node::container("ilst", ch))
     });
     if me.hdlr_last && !me.quicktime {
         if let Some(i) = ilst {
@@ -421,11 +452,8 @@ pub fn meta_node(me: &Meta) -> Node {
             kids.push(i);
         }
     }
-    if me.quicktime {
-        Node::container("meta", kids)
-    } else {
-        Node::mixed("meta", vec![0, 0, 0, 0], kids)
-    }
+    let meta = if me.quicktime { Node::container("meta", kids) } else { Node::mixed("meta", vec![0, 0, 0, 0], kids) };
+    lp.mark(meta)
 }
 
 fn moov_node(m: &Movie, pl: &Placement) -> Node {
@@ -451,12 +479,13 @@ fn moov_node(m: &Movie, pl: &Placement) -> Node {
         kids.push(Node::container("mvex", mv));
     }
     if let Some(me) = &m.meta {
+        let mut lp = LargePick::new(me.large_seed);
         let mut uk: Vec<Node> = Vec::new();
         for (t, p) in &me.udta_extra {
-            uk.push(Node::leaf_cc(*t, p.clone()));
+            uk.push(lp.mark(Node::leaf_cc(*t, p.clone())));
         }
-        uk.push(meta_node(me));
-        kids.push(Node::container("udta", uk));
+        uk.push(meta_node_with(me, &mut lp));
+        kids.push(lp.mark(Node::container("udta", uk)));
     }
     Node::container("moov", kids)
 }
